@@ -34,6 +34,8 @@ verus! {
 
 //@fn expand.rs enum_init_block_inner
 //@props C02,C09,C16
+//@attr #[verifier::loop_isolation(false)]
+//@attr #[verifier::allow_complex_invariants]
 //@uses flat_lemmas::group_flat
 //@spec
     requires
